@@ -53,9 +53,12 @@ type Spec struct {
 	// Mode "prompt" (NATS): the subscriber's connection goes through a relay
 	// that delays client->server bytes by RelayMs; the first publishes come
 	// from another connection immediately after Subscribe returned.
-	RelayMs int       `json:"relay_ms,omitempty"`
-	Mode    string    `json:"mode,omitempty"`
-	Subs    []SubSpec `json:"subs,omitempty"`
+	RelayMs int `json:"relay_ms,omitempty"`
+	// DupSub: after A subscribed, Subscribe is called once more on A's very
+	// transport (rejected: already subscribed); everything else as usual.
+	DupSub bool      `json:"dup_sub,omitempty"`
+	Mode   string    `json:"mode,omitempty"`
+	Subs   []SubSpec `json:"subs,omitempty"`
 }
 
 // SubSpec is one subscription of a shared-provider sequence.
@@ -279,6 +282,7 @@ type msg struct {
 	PubHdrs  map[string]string
 	Raw      []byte
 	RawTopic string
+	HdrBytes int         // user request headers of a valid publish
 	Target   *subscriber // shared mode: the subscription whose topic it was published on
 }
 
@@ -414,6 +418,25 @@ func (q *seqRun) rawPublish(topic string, body []byte, inject bool) error {
 	return q.pubL.sc.Send(q.subject(topic), "application/octet-stream", body)
 }
 
+// stickyProviderFor is providerFor with a subscriber factory that keeps
+// handing out one transport.
+func (q *seqRun) stickyProviderFor(l *link) *frugal.FScopeProvider {
+	s := q.spec
+	pf := rig.ProtocolFactory(s.Proto)
+	if s.Broker == "nats" {
+		var sf frugal.FSubscriberTransportFactory
+		if s.Factory == "plain" {
+			sf = frugal.NewFNatsSubscriberTransportFactory(l.nc)
+		} else {
+			sf = frugal.NewFNatsSubscriberFactoryBuilder(l.nc).WithWorkerCount(uint(s.Workers)).WithQueueLength(uint(s.QueueLen)).Build()
+		}
+		return frugal.NewFScopeProvider(frugal.NewFNatsPublisherTransportFactory(l.nc), &stickyFactory{inner: sf}, pf)
+	}
+	return frugal.NewFScopeProvider(
+		frugal.NewFStompPublisherTransportFactoryBuilder(l.sc).WithTopicPrefix(s.StompPrefix).Build(),
+		&stickyFactory{inner: frugal.NewFStompSubscriberTransportFactoryBuilder(l.sc).WithTopicPrefix(s.StompPrefix).Build()}, pf)
+}
+
 func (q *seqRun) providerFor(l *link) *frugal.FScopeProvider {
 	s := q.spec
 	pf := rig.ProtocolFactory(s.Proto)
@@ -452,6 +475,44 @@ func (q *seqRun) subscribe(name string, l *link, delay time.Duration) (*subscrib
 	return q.subscribeVia(name, q.providerFor(l), q.spec.Op, q.spec.User, delay)
 }
 
+// emittedSubscribe calls the emitted Subscribe<Op> of the operation's scope.
+func emittedSubscribe(prov *frugal.FScopeProvider, op, user string, rec *recorder) (*frugal.FSubscription, error) {
+	switch op {
+	case "Sent":
+		return mainsvc.NewEventsSubscriber(prov).SubscribeSent(user, rec.onPayload)
+	case "Num":
+		return mainsvc.NewEventsSubscriber(prov).SubscribeNum(user, rec.onThing)
+	case "Ping":
+		return mainsvc.NewPlainSubscriber(prov).SubscribePing(rec.onThing)
+	case "UserEvents":
+		return c07scopes.NewUserEventsSubscriber(prov).SubscribeCreated(user, rec.onNote)
+	case "Api":
+		return c07scopes.NewAPISubscriber(prov).SubscribeHit(rec.onNote)
+	case "HttpUrlId":
+		return c07scopes.NewHTTPURLIDSubscriber(prov).SubscribeSeen("t-"+user, user, rec.onNote)
+	case "Alerts":
+		return c07scopes.NewAlertsSubscriber(prov).SubscribeRaised(rec.onNote)
+	case "IdMap":
+		return c07scopes.NewIDMapSubscriber(prov).SubscribePut(user, rec.onNote)
+	}
+	return nil, fmt.Errorf("unknown operation %q", op)
+}
+
+// stickyFactory hands out ONE subscriber transport again and again, so that
+// the emitted Subscribe<Op> can be called twice on the same transport (the
+// second call must be rejected and must change nothing).
+type stickyFactory struct {
+	inner frugal.FSubscriberTransportFactory
+	t     frugal.FSubscriberTransport
+}
+
+func (f *stickyFactory) GetTransport() frugal.FSubscriberTransport {
+	if f.t == nil {
+		f.t = f.inner.GetTransport()
+	}
+	return f.t
+}
+
 // subscribeVia makes one subscription of (op, user) through prov.
 func (q *seqRun) subscribeVia(name string, prov *frugal.FScopeProvider, op, user string, delay time.Duration) (*subscriber, error) {
 	x := &subscriber{name: name, rec: &recorder{have: map[string]int{}, delay: delay}, op: op, user: user, topic: q.topicOf(op, user)}
@@ -464,26 +525,7 @@ func (q *seqRun) subscribeVia(name string, prov *frugal.FScopeProvider, op, user
 	go func() {
 		x.gid = myGID()
 		var err error
-		switch op {
-		case "Sent":
-			x.sub, err = mainsvc.NewEventsSubscriber(prov).SubscribeSent(user, x.rec.onPayload)
-		case "Num":
-			x.sub, err = mainsvc.NewEventsSubscriber(prov).SubscribeNum(user, x.rec.onThing)
-		case "Ping":
-			x.sub, err = mainsvc.NewPlainSubscriber(prov).SubscribePing(x.rec.onThing)
-		case "UserEvents":
-			x.sub, err = c07scopes.NewUserEventsSubscriber(prov).SubscribeCreated(user, x.rec.onNote)
-		case "Api":
-			x.sub, err = c07scopes.NewAPISubscriber(prov).SubscribeHit(x.rec.onNote)
-		case "HttpUrlId":
-			x.sub, err = c07scopes.NewHTTPURLIDSubscriber(prov).SubscribeSeen("t-"+user, user, x.rec.onNote)
-		case "Alerts":
-			x.sub, err = c07scopes.NewAlertsSubscriber(prov).SubscribeRaised(x.rec.onNote)
-		case "IdMap":
-			x.sub, err = c07scopes.NewIDMapSubscriber(prov).SubscribePut(user, x.rec.onNote)
-		default:
-			err = fmt.Errorf("unknown operation %q", op)
-		}
+		x.sub, err = emittedSubscribe(prov, op, user, x.rec)
 		done <- err
 	}()
 	select {
@@ -576,8 +618,21 @@ func (q *seqRun) newMsg(kind, sub string, phase int) *msg {
 func (q *seqRun) publishValid(kind, sub, op, user string, phase int) (*msg, error) {
 	m := q.newMsg(kind, sub, phase)
 	ctx := frugal.NewFContext(m.Cid)
-	for k, v := range genHeaders(q.rng) {
+	hdrs := genHeaders(q.rng)
+	if kind == "valid" && q.rng.Intn(40) == 0 {
+		// header blocks beyond 64 KiB (the frame stays far below 1 MiB)
+		if q.rng.Intn(2) == 0 {
+			hdrs["big"] = bigText(q.rng, 70*1024)
+		} else {
+			for i := 0; i < 50; i++ {
+				hdrs[fmt.Sprintf("medium-%02d", i)] = bigText(q.rng, 4*1024)
+			}
+		}
+		q.count("valid_published_with_headers_over_64KiB", 1)
+	}
+	for k, v := range hdrs {
 		ctx.AddRequestHeader(k, v)
+		m.HdrBytes += 8 + len(k) + len(v)
 	}
 	var err error
 	switch op {
@@ -986,7 +1041,12 @@ func (q *seqRun) reportMissing(x *subscriber, status, dump string) {
 		ks = append(ks, k)
 	}
 	sort.Strings(ks)
-	q.pending = append(q.pending, pendingMissing{x: x, status: status, witness: w, kinds: ks, missing: len(miss), required: len(q.required(x))})
+	bigOnly := true
+	for _, m := range miss {
+		bigOnly = bigOnly && m.HdrBytes > 64*1024
+	}
+	w["first_missing_header_bytes"] = first.HdrBytes
+	q.pending = append(q.pending, pendingMissing{x: x, status: status, witness: w, kinds: ks, missing: len(miss), required: len(q.required(x)), bigOnly: bigOnly})
 }
 
 // stompAckDeadlock recognises the wait cycle "subscriber's processMessages
@@ -1036,6 +1096,7 @@ type pendingMissing struct {
 	witness           map[string]interface{}
 	kinds             []string
 	missing, required int
+	bigOnly           bool // every missing message carried more than 64 KiB of headers
 }
 
 func (q *seqRun) probe(kind string) *Result {
@@ -1061,6 +1122,10 @@ func (q *seqRun) probe(kind string) *Result {
 func (q *seqRun) attribute() {
 	for _, p := range q.pending {
 		w, x := p.witness, p.x
+		if p.bigOnly {
+			q.vio("valid-message-with-large-headers-not-delivered", fmt.Sprintf("subscriber %s never got %d valid message(s) whose FContext request headers total more than 64 KiB (first: %d bytes; the frame is far below the transport's size limit); every other message was delivered", x.name, p.missing, w["first_missing_header_bytes"]), w)
+			continue
+		}
 		if q.probe("control").Stalled {
 			w["control_probe"] = "V V V V V S (valid messages only) on fresh subscribers of the same configuration is not delivered either"
 			if x.sub.Topic() != q.topic {
@@ -1885,9 +1950,23 @@ func (q *seqRun) run() {
 		q.inconclusive("Subscribe(B): " + err.Error())
 		return
 	}
-	if q.A, err = q.subscribe("A", q.aL, time.Duration(s.DelayUs)*time.Microsecond); err != nil {
+	provA := q.providerFor(q.aL)
+	if s.DupSub {
+		provA = q.stickyProviderFor(q.aL)
+	}
+	if q.A, err = q.subscribeVia("A", provA, s.Op, s.User, time.Duration(s.DelayUs)*time.Microsecond); err != nil {
 		q.inconclusive("Subscribe(A): " + err.Error())
 		return
+	}
+	if s.DupSub {
+		// same transport, already subscribed: must be rejected and harmless
+		if sub2, err2 := emittedSubscribe(provA, s.Op, s.User, q.A.rec); err2 == nil {
+			q.count("duplicate_subscribe_accepted", 1)
+			sub2.Unsubscribe()
+		} else {
+			q.count("duplicate_subscribe_rejected", 1)
+		}
+		q.letters = append(q.letters, 'D')
 	}
 	if !q.A.dumpOK || !q.B.dumpOK {
 		q.count("worker_goroutines_not_identified", 1)
